@@ -275,6 +275,7 @@ func init() {
 			acSeparatorCorner(add)
 			acInvalidUTF8(add)
 			acAllMultibyte(add)
+			acRebuildCases(add)
 			for i := 0; i < n; i++ {
 				acTwoPatternFields = i%4 == 1 || i%4 == 3 // two pattern fields: each must keep its own keywords
 				docs, qs := acDocsQueries(r, i%2 == 0)
